@@ -1,4 +1,4 @@
-import TinodeVerif.Model.TopicUser
+import TinodeVerif.Model.TopicCross
 import TinodeVerif.Driver.Wire
 /-! Driver for the world stream (`TestVerifWorld`): one op per line, one output line per op, rendered exactly like the
 Go harness renders the real frames and state. -/
@@ -57,7 +57,18 @@ def storeDigest (w : World) : List String :=
     s!"store {r.name} seq={r.seq} del={r.del} owner={if r.owner = "" then "-" else r.owner} acs={showMode r.auth}/{showMode r.anon} pub={showTok r.pub} tr={showTok r.tr} tags=[{",".intercalate r.tags}]{if r.state ≠ 0 then s!" state={r.state}" else ""} subs[{" ".intercalate subs}]{csubs} msgs[{" ".intercalate msgs}] dellog[{" ".intercalate dl}]")
 
 def sessDigest (w : World) : List String :=
-  w.sess.map (fun s => s!"{s.sid}\{{",".intercalate (s.subs.mergeSort (· ≤ ·))}}")
+  w.sess.map (fun s => s!"{s.sid}\{{",".intercalate (s.subs.mergeSort (· ≤ ·))}}{if s.inflight then "*" else ""}")
+
+/-- what is held: the hub's queues, the queues of the loaded topics, the topics which are shutting down (crossings only) -/
+def heldDigest (w : World) : List String :=
+  let cnt (t : Topic) (k : String) : Nat := (t.q.filter (·.kind = k)).length
+  let one (t : Topic) (tag : String) (ex : Nat) : List String :=
+    if t.q.isEmpty ∧ ex = 0 then [] else
+    [s!"{tag}{t.name}[reg={cnt t "sub"} unreg={cnt t "leave"} pub={cnt t "pub"} meta=0 exit={ex}]"]
+  let hub := if w.hubJoin.isEmpty ∧ w.hubUnreg.isEmpty then [] else [s!"hub[join={w.hubJoin.length} unreg={w.hubUnreg.length}]"]
+  let parts := hub ++ ((w.live.mergeSort (fun a b => a.name ≤ b.name)).flatMap (fun t => one t "" 0)) ++
+    ((w.exiting.mergeSort (fun a b => a.name ≤ b.name)).flatMap (fun t => one t "x:" 1))
+  if parts.isEmpty then [] else ["held " ++ " ".intercalate parts]
 
 /-- the Unicode classes on the alphabet the run uses (as in Driver/C19.lean) -/
 def isL (c : Char) : Bool := c.isAlpha || c.toNat ≥ 0xC0
@@ -137,7 +148,8 @@ def render (pre : World) (st : WSt) (c : Ctx) (ad : Addr := {}) : String :=
   -- sessions created before this op only; all frames belong to known sessions
   -- (the order in which the topics learn of a timer or a dropped connection is not defined: those frames are compared sorted, as rendered)
   let frames := if ad.op = "drop" ∨ ad.op = "fg" ∨ ad.op = "deluser" then frames.mergeSort (· ≤ ·) else frames
-  let parts := frames ++ c.pushes ++ [s!"calls={",".intercalate c.calls}"] ++ cacheDigest c.w ++ storeDigest c.w ++ sessDigest c.w
+  let parts := frames ++ c.pushes ++ [s!"calls={",".intercalate c.calls}"] ++ cacheDigest c.w ++ storeDigest c.w ++ sessDigest c.w ++
+    heldDigest c.w
   " | ".intercalate parts
 
 def parseRangesArg (s : String) : List (Int × Int) :=
@@ -176,17 +188,70 @@ def step (st : WSt) (ws : List String) : Option (WSt × String) :=
   | ["fail", k] => (decNat k).map (fun k => ({ st with failK := k }, "ok"))
   | ["crash", k] => (decNat k).map (fun k => ({ st with crashK := k }, "ok"))
   | "restart" :: _ =>
+    if st.w.anythingHeld then some (st, "pending") else
     let store := st.snap.getD st.w.store
-    let w := { st.w with store := store, live := [], sess := st.w.sess.map (fun s => { s with subs := [], out := st.w.gone.contains s.uid }) }
+    let w := { st.w with store := store, live := [], sess := st.w.sess.map (fun s => { s with subs := [], out := st.w.gone.contains s.uid, inflight := false }) }
     let st := { st with w := w, snap := none }
     some (st, render w st { w := w })
+  -- crossings: a request is dispatched and stays queued; the hub and the topics take their queues step by step
+  | "hold" :: "unload" :: t :: _ =>
+    let c : Ctx := { w := st.w }
+    let (c, msg) := c.holdUnload t
+    if msg ≠ "" then some (st, msg) else
+    let c := c.deliverAll
+    let stOut := { st with w := c.w, failK := 0, crashK := 0, snap := none }
+    some (stOut, render st.w stOut c)
+  | "hold" :: kind :: sid :: t :: rest =>
+    if kind ≠ "sub" ∧ kind ≠ "leave" ∧ kind ≠ "pub" ∧ kind ≠ "deltopic" then none else
+    match st.w.sess? sid with
+    | none => if kind = "deltopic" then some (st, "nohold") else none
+    | some s =>
+      -- only the owner's {del topic} shuts the topic down at the hub: nothing else is held
+      let ownerDel : Bool := match st.w.live? t with | some tp => tp.owner = s.uid && tp.owner ≠ "" | none => false
+      if kind = "deltopic" ∧ !ownerDel then some (st, "nohold") else
+      let m := kv rest
+      let a : Actor := { sid := s.sid, sessUid := s.uid, uid := s.uid, lvl := s.lvl, bg := s.bg }
+      let r : HeldReq := { kind := kind, a := a, tn := t, mode := optStr (kvGet m "mode"), priv := privArg (kvGet m "priv"),
+                           userGiven := kvGet m "user" ≠ "", unsub := kvGet m "unsub" = "1",
+                           content := (rest.headD ""), head := parseHead (kvGet m "head"), noEcho := kvGet m "noecho" = "1",
+                           hard := kvGet m "hard" = "1" }
+      let c0 : Ctx := { w := st.w }
+      let stClean := { st with failK := 0, crashK := 0, snap := none }
+      if s.out then
+        let c := c0.loggedOut sid t false
+        some ({ stClean with w := c.w }, render st.w { stClean with w := c.w } c { actor := sid, op := kind })
+      else if (kind = "sub" ∨ kind = "leave") ∧ s.inflight then some (stClean, "blocked") else
+      let c := match kind with
+        | "sub" => c0.holdSub r
+        | "leave" => c0.holdLeave r
+        | "pub" => c0.holdPub r
+        | _ => c0.holdDelTopic r
+      let c := c.deliverAll
+      let stOut := { stClean with w := c.w }
+      some (stOut, render st.w stOut c { actor := sid, op := kind })
+  | "hubstep" :: _ =>
+    let c := ({ w := st.w } : Ctx).hubStep.deliverAll
+    let stOut := { st with w := c.w, snap := none }
+    some (stOut, render st.w stOut c)
+  | "tstep" :: t :: q :: _ =>
+    let (c, msg) := ({ w := st.w } : Ctx).topicStep t q
+    if msg ≠ "" then some (st, msg) else
+    let c := c.deliverAll
+    let stOut := { st with w := c.w, snap := none }
+    some (stOut, render st.w stOut c)
+  | "settle" :: _ =>
+    let c := ({ w := st.w } : Ctx).settle.deliverAll
+    let stOut := { st with w := c.w, snap := none }
+    some (stOut, render st.w stOut c)
   | "userstate" :: u :: rest =>
+    if st.w.anythingHeld then some (st, "pending") else
     let c : Ctx := { w := st.w }
     let c := (c.opUserState u (rest.head? = some "susp")).deliverRouted
     let pre := st.w
     let st := { st with w := c.w, snap := none }
     some (st, render pre st c)
   | "unload" :: t :: _ =>
+    if st.w.anythingHeld then some (st, "pending") else
     let c : Ctx := { w := st.w }
     let (c, msg) := if isMeKey st.w t then c.opUnloadMe t else c.opUnload t      -- (a `fnd` topic tells nobody, like a p2p topic)
     let c := c.deliverAll
@@ -195,6 +260,8 @@ def step (st : WSt) (ws : List String) : Option (WSt × String) :=
     let st := { st with w := c.w, snap := none }
     some (st, render pre st c)
   | op :: sid :: rest =>
+    -- while requests are held the history goes on with steps; a connection may drop if it is the one with a request in flight
+    if st.w.anythingHeld ∧ !(op = "drop" ∧ st.w.inflight sid) then some (st, "pending") else
     match st.w.sess? sid with
     | none => none
     | some s =>
@@ -297,7 +364,12 @@ def step (st : WSt) (ws : List String) : Option (WSt × String) :=
             else if isChanT then some (c0.opDelTopicC a t viaChn (kvGet m "hard" = "1"))
             else some (c0.opDelTopic a t (kvGet m "hard" = "1"))
           | "fg", _ => some (c0.opFgAllF sid)
-          | "drop", _ => some (c0.opDropAllF sid)
+          -- Session.cleanUp waits for the session's request in flight: everything settles first
+          -- (nothing reaches a session which is terminating: Session.queueOut drops it)
+          | "drop", _ => some (if s.inflight then
+              let c1 := c0.settle.deliverAll
+              ({ c1 with frames := c1.frames.filter (·.1 ≠ sid) }).opDropAllF sid
+            else c0.opDropAllF sid)
           | _, _ => none
       match c with
       | none => none
